@@ -39,7 +39,15 @@ func runC15(p *load.Program, r *core.Report) {
 // provenance tags of a value: "cookie", "nonce", "peer", "local"
 func provTags(v ssa.Value) map[string]bool {
 	tags := map[string]bool{}
-	seen := map[ssa.Value]bool{}
+	type seenKey struct {
+		v    ssa.Value
+		deep bool
+	}
+	seen := map[seenKey]bool{}
+	// hdepth counts the digests between the value examined and the tag source: the cookie counts
+	// only as a direct input of the compared digest (hdepth <= 1) — a digest of the cookie that was
+	// itself sent to the peer is public, so hashing it again proves nothing about knowing the cookie.
+	hdepth := 0
 	var rec func(v ssa.Value, d int)
 	recStoresTo := func(cell ssa.Value, fn *ssa.Function, d int) {
 		for _, g := range family(root(fn)) {
@@ -68,10 +76,10 @@ func provTags(v ssa.Value) map[string]bool {
 		}
 	}
 	rec = func(v ssa.Value, d int) {
-		if v == nil || seen[v] || d > 40 {
+		if v == nil || seen[seenKey{v, hdepth > 1}] || d > 40 {
 			return
 		}
-		seen[v] = true
+		seen[seenKey{v, hdepth > 1}] = true
 		switch x := v.(type) {
 		case *ssa.Call:
 			cc := x.Common()
@@ -84,6 +92,7 @@ func provTags(v ssa.Value) map[string]bool {
 				// object state: Sum depends on every Write on the same receiver
 				if cc.Method.Name() == "Sum" {
 					fn := x.Parent()
+					hdepth++
 					eachInstr(fn, func(in ssa.Instruction) {
 						c2 := callCommon(in)
 						if c2 != nil && c2.IsInvoke() && c2.Method.Name() == "Write" && c2.Value == cc.Value {
@@ -92,6 +101,7 @@ func provTags(v ssa.Value) map[string]bool {
 							}
 						}
 					})
+					hdepth--
 				}
 			}
 			for _, a := range cc.Args {
@@ -120,7 +130,7 @@ func provTags(v ssa.Value) map[string]bool {
 			tags["peer"] = true
 		case *ssa.Field:
 			_, path, _ := fieldPath(x)
-			if len(path) > 0 && path[len(path)-1] == "Cookie" {
+			if len(path) > 0 && path[len(path)-1] == "Cookie" && hdepth <= 1 {
 				tags["cookie"] = true
 			}
 			rec(x.X, d+1)
@@ -130,7 +140,7 @@ func provTags(v ssa.Value) map[string]bool {
 				return
 			}
 			_, path, _ := fieldPath(x)
-			if len(path) > 0 && path[len(path)-1] == "Cookie" {
+			if len(path) > 0 && path[len(path)-1] == "Cookie" && hdepth <= 1 {
 				tags["cookie"] = true
 			}
 			// load from a cell or from a field of a cell
